@@ -13,9 +13,57 @@ COMMON_ASSUMPTIONS = [
     "verdicts hold for every input within the stated bounds and say nothing outside them",
 ]
 
+INSN_TRUSTED = ['iced-x86 decoder: bridged natively (witness bytes -> fields -> rebuilt Instruction == decoded Instruction), not executed by the solver', 'reference semantics /verif/harness/x86ref.rs (written from the Intel SDM; spot-checked against the host CPU for SHL count 0 / CMOVcc r32)', 'stubs: collect_mem_error_hints -> fixed error; Display/Debug of iced Instruction/Code/Mnemonic/Register/OpKind -> Ok(())']
+
+INSN_BOUNDS = ("one handler call (mnemonic_<m>) per implemented form x shape from a fully symbolic machine: all 16 GPRs + RIP (2^64 each), "
+               "rflags (all 64 bits), fs, gs, 2 XMM registers symbolic (others distinct constants) where the form names one, immediates / "
+               "displacement / branch target symbolic over everything the encoding can carry; memory forms: one area D of 32 symbolic bytes at "
+               "0x40000000 with an arbitrary 3-bit permission mask, address = symbolic base register + symbolic disp8 (inside, straddling, outside D). "
+               "Shapes: quick = mod=11 register shape (8- and 64-bit widths of each operand pattern) + [base+disp8] shape (widest width); thorough "
+               "adds all widths, dest==src alias, AH..BH, REX registers, SPL..DIL, [r13+disp8]. Register numbers rotate with VERIF_SEED. unwind 90")
+INSN_OUTSIDE = ("encodings the witness generator does not produce (other ModRM/SIB addressing shapes are C05's subject; prefixes such as LOCK/REP); "
+                "forms not decodable in 64-bit mode (listed in the evidence); iced's decoder itself; 64-bit DIV/IDIV/MUL/IMUL values share the 128-bit "
+                "primitive with the implementation (operand routing, extension, hi/lo split and flags are checked, not the multiplier/divider circuit); "
+                "the #DE condition is checked independently without a divider; AF is never compared")
+
 PROPS = {
-    "C11": {},
-    "C01": {}, "C02": {}, "C03": {}, "C04": {}, "C05": {}, "C06": {}, "C19": {}, "C20": {},
+    "C01": {"bounds": INSN_BOUNDS + "; obligations: every GPR, every XMM register, every byte of D, RIP == next instruction, fs/gs untouched; "
+                      "plus the inventory check that no form implemented on the pinned tree has become unimplemented",
+            "outside": INSN_OUTSIDE, "trusted": INSN_TRUSTED, "assumptions": []},
+    "C02": {"bounds": INSN_BOUNDS + "; obligations: flags in the architecture's defined set equal the reference for all 2^64 incoming rflags values "
+                      "and all 256 shift counts; flags outside defined+undefined keep their previous value",
+            "outside": INSN_OUTSIDE, "trusted": INSN_TRUSTED, "assumptions": []},
+    "C03": {"bounds": INSN_BOUNDS + "; every implemented Jcc/JMP/CALL/RET/JRCXZ/JECXZ form: RIP' == (cond ? target : next) for all flag states, "
+                      "targets next_ip + any rel8/rel32, any register / memory-indirect target",
+            "outside": INSN_OUTSIDE, "trusted": INSN_TRUSTED, "assumptions": ["RET: the emulator's top-level-return rule (C11) is assumed not to trigger"]},
+    "C04": {"bounds": INSN_BOUNDS + "; every implemented PUSH/POP/CALL/RET form with RSP anywhere (slot inside, straddling, outside D) and four "
+                      "short programs mixing stack instructions with [RSP]-relative loads/stores, compared with the reference run in sequence",
+            "outside": INSN_OUTSIDE, "trusted": INSN_TRUSTED, "assumptions": []},
+    "C05": {"bounds": "instruction_operand()+mem_addr(), LEA r16/r32/r64 and MOV load/store probes with the Instruction's memory fields symbolic over: "
+                      "base in {none, 16 GPR64, RIP} or under 0x67 {none, 16 GPR32, EIP}; index in {none, 15 GPRs}; scale 1/2/4/8; displacement "
+                      "0 / sext8 / sext32 / 64-bit absolute; segment prefix in {none, ES, CS, SS, DS, FS, GS}; all register values, fs, gs symbolic",
+            "outside": "that these classes are exactly what iced delivers is bridged natively on witness encodings, not proved; 16-bit addressing does not exist in 64-bit mode",
+            "trusted": INSN_TRUSTED, "assumptions": []},
+    "C06": {"bounds": INSN_BOUNDS + "; obligations: error iff the reference faults (#DE incl. quotient overflow for all widths, unmapped / straddling / "
+                      "permission-denied access, misaligned XORPS m128), and no panic/overflow/unwrap failure anywhere in the handler",
+            "outside": INSN_OUTSIDE, "trusted": INSN_TRUSTED, "assumptions": []},
+    "C19": {"bounds": INSN_BOUNDS + "; additionally every UNIMPLEMENTED form with a 64-bit-mode encoding must return Err; crash-freedom = every Kani/CBMC "
+                      "check (panic, assert, unwrap/expect, arithmetic overflow, index, pointer) in code reachable from the handler; step()'s own "
+                      "prefix (decode failure, unsupported mnemonic) is covered by c11_step",
+            "outside": INSN_OUTSIDE + "; byte strings iced decodes to mnemonics outside the 65 supported ones are rejected in step() by TryFrom<Mnemonic> (run concretely in c11_step only for NOP)",
+            "trusted": INSN_TRUSTED, "assumptions": []},
+    "C20": {"bounds": "two-run self-composition per mnemonic (one register-shape and one memory-shape form each): machine B equals machine A on every "
+                      "explicit input (a symbolic set of written registers containing every register the instruction names, flags, segment bases, "
+                      "memory, instruction) and holds independent arbitrary values in all other registers; same handler on both; outcome kind, written "
+                      "registers, flags, memory, XMM, trace/call-stack/counters must agree. Model-map iteration starts at an arbitrary rotation (H1)",
+            "outside": "error *texts* (formatter stubbed); cross-process effects other than RNG draws and hash order (the code reads no clock/env); whole programs (follows per step)",
+            "trusted": INSN_TRUSTED, "assumptions": ["pipe descriptor numbers are excluded by the property"]},
+    "C11": {"bounds": "one real step() from arbitrary loop-control state (RIP, code_end_addr, finished, executed count, Option<limit>, stack_top all symbolic) with the "
+                      "decoder replaced by 'fails or delivers an instruction of any length 1..=15' and the dispatch by 'no effect / write any RIP / ordinary error / "
+                      "normal-finish error'; limit exactness by induction on the count; top-level RET rule on the real init_stack + CALL + RET handlers (depth 0 and 1). "
+                      "execute() == loop of step() is NOT decided (nested async state machines exhaust >30 GB)",
+            "outside": "execute(); hooks (C12); the real decoder; register state other than RIP/RAX is absent from the machine (step() touches only RIP)",
+            "trusted": ["stubs: decode_at, switch_instruction_mnemonic (nondeterministic stand-ins), trace(), call_stack() renderers"], "assumptions": ["executed count < 2^64-8"]},
     "C07": {
         "bounds": "one API call from an arbitrary register file satisfying the invariant (17 64-bit keys present): "
                   "all 86 register ids x all 2^64 prior contents of all 17 registers x all 2^64 written values x "
